@@ -2,8 +2,9 @@
    zix_create_directories (FsModel.v: the zix_path_begin/next iterator with its index arithmetic and the
    NUL-chopping walk, as coded) runs on the abstract tree file system of FsSpec.v (directories and regular
    files, '.'/'..' resolution, mkdir with EEXIST/ENOENT/ENOTDIR).  zix_file_equals runs on two byte lists with
-   scripted reads.  NOT in the proved part: symbolic links, permissions, zix_symlink_type, zix_canonical_path,
-   zix_dir_for_each (compared with the direct libc calls by the driver only). *)
+   scripted reads.  Symbolic links (and fifos etc.), zix_file_type / zix_symlink_type over stat / lstat,
+   zix_dir_for_each and the descriptor accounting: second part, Properties_C15_links.v (file system FsLinkSpec.v).
+   NOT in the proved part: permissions, zix_canonical_path (compared with realpath by the driver only). *)
 From Coq Require Import ZArith List Bool Lia.
 From Zix Require Import CopySpec CopyModel FsSpec FsModel FsProofs FsProofs2 FsProofs3.
 Import ListNotations.
